@@ -5,7 +5,12 @@
    (ns), a RateLimitWait probe (n calls with a deadline [budget] ns away), and what the
    real code did: whether LoadAndValidate accepted the configuration, the limiter built
    by CreateRateLimiter (Limit() == Inf, Burst()), the act instants ReserveN(t,1) granted,
-   the probe's results and the wall-clock time the probe took. *)
+   the probe's results and the wall-clock time the probe took.
+   Concurrent waiters (c_conc_n > 0, short intervals): that many goroutines call
+   Hook.RateLimitWait(context.Background()) of a freshly loaded hook at once, as the workers of
+   several queues do for one hook; [o_conc] lists, in the order they were observed, the
+   instants (ns after the instant [0] taken before the goroutines were launched) at which
+   the calls returned nil. *)
 From Coq Require Export Uint63.
 From Verif Require Import Common C18_Model C18_Spec C18_Proofs.
 Open Scope Z_scope.
@@ -28,7 +33,8 @@ Record obs := mkObs {
   o_burst : Z;
   o_acts : list (option Z);
   o_probe : list bool;
-  o_wall : Z
+  o_wall : Z;
+  o_conc : list Z
 }.
 
 Record lcase := mkCase {
@@ -36,6 +42,7 @@ Record lcase := mkCase {
   c_arrivals : list Z;
   c_probe_n : N;
   c_budget : Z;
+  c_conc_n : N;
   c_obs : obs
 }.
 
@@ -43,10 +50,12 @@ Definition is_none {A} (o : option A) : bool := match o with None => true | Some
 
 Definition model_obs_l (c : lcase) : obs :=
   match limiter_of_config (c_raw c) with
-  | None => mkObs false false 0 [] [] 0
+  | None => mkObs false false 0 [] [] 0 []
   | Some b =>
       mkObs true (is_none (b_limit b)) (b_burst b) (grants b (c_arrivals c))
             (wait_probe b 0 (c_budget c) (N.to_nat (c_probe_n c))) 0
+            (* all requests at the earliest possible instant: the anchor (C18_concurrent_waiters) *)
+            (somes (grants b (repeat 0 (N.to_nat (c_conc_n c)))))
   end.
 
 (* float rounding + truncation in the Go limiter: 1 ns per act time; exact when unlimited *)
@@ -57,6 +66,12 @@ Definition close (tol : Z) (a b : option Z) : bool :=
   | _, _ => false
   end.
 
+Fixpoint never_earlier (model impl : list Z) : bool :=
+  match model, impl with
+  | m :: mr, i :: ir => (m <=? i) && never_earlier mr ir
+  | _, _ => true
+  end.
+
 Definition agrees_l (c : lcase) : bool :=
   let m := model_obs_l c in
   let o := c_obs c in
@@ -64,7 +79,11 @@ Definition agrees_l (c : lcase) : bool :=
   && Bool.eqb (o_inf m) (o_inf o)
   && Z.eqb (o_burst m) (o_burst o)
   && list_eqb (close (if o_inf m then 0 else 1)) (o_acts m) (o_acts o)
-  && list_eqb Bool.eqb (o_probe m) (o_probe o).
+  && list_eqb Bool.eqb (o_probe m) (o_probe o)
+  (* concurrent waiters: as many returns as the model grants, the k-th of them not earlier than
+     the model's k-th grant (the real requests come at or after the anchor: C18_grants_monotone) *)
+  && Nat.eqb (length (o_conc m)) (length (o_conc o))
+  && never_earlier (o_conc m) (o_conc o).
 
 
 (* the (I, B) the user configured, as the property text reads them *)
@@ -89,6 +108,8 @@ Definition P_case_l (c : lcase) : bool :=
       P cfg (c_arrivals c) (o_acts o)
       && P_wall cfg (count_true (o_probe o)) (o_wall o)
       && match cfg with None => forallb (fun x => x) (o_probe o) | Some _ => true end
+      (* concurrent waiters: the window bound for the windows that begin at the anchor *)
+      && P_hook_anchored cfg [0] (o_conc o)
   end.
 
 
@@ -210,7 +231,7 @@ Definition op_trace (c : opcase) : list lstate := trace_lim (oc_cfg c) (oc_setti
 Definition op_final (c : opcase) : lstate := run_lim (oc_cfg c) (init_lim (oc_settings c)) (op_script c).
 
 Definition op_model_steps (c : opcase) : list (sobs * list N) :=
-  map (fun ls => (observe (oc_cfg c) (l_op ls), sort_dedup (map fst (l_waiting ls)))) (op_trace c).
+  map (fun ls => (observe (oc_cfg c) (l_op ls), sort_dedup (map we_queue (l_waiting ls)))) (op_trace c).
 
 Definition step_eqb (m i : sobs * list N) : bool :=
   sobs_eqb (fst m) (fst i) && list_eqb N.eqb (snd m) (snd i).
@@ -242,22 +263,165 @@ Definition P_case_op (c : opcase) : bool :=
   forallb (fun s => negb (so_bad s)) (oc_steps c)
   && P_op (oc_settings c) (oc_starts c) (observed_throttled c).
 
-(* ---- both kinds ---- *)
-Inductive case := CLim (c : lcase) | COp (c : opcase).
+(* ======================================================================================
+   Operator level, TIMED: short intervals (100-300 ms), the sleepers wake up during the
+   scenario.  The hooks have schedule bindings only, in main and named queues, several
+   bindings of one hook in DIFFERENT queues; every execution ends successfully as soon as the
+   harness sees it.  A case is: the hooks and their settings, the instant of Boot, the
+   instant at which each Tick was issued (taken BEFORE it was issued), the instant at which
+   the harness saw all queues empty again at the end, every execution start with the instant
+   at which the harness SAW it (some time after it happened, never before), and the anchors:
+   instants, taken by the harness, at which no execution was under way (all queues empty
+   when looked at afterwards), so that a start seen at or after an anchor happened after it.
+
+   P is judged on the observed instants in the anchored form (C18_Spec.P_timed): a delay
+   between a start and its observation cannot make it fail (C18_late_observation_sound).
+
+   Comparison with the model, [tc_exact] cases only: the harness issued a Tick only when
+   every queue it feeds was empty, so each task is executed on its own, whatever the timing,
+   and model and implementation start the same number of executions.  The model runs the
+   ticks with hooks that end at the very instant they start ([auto_run]: a script of Tick,
+   Idle and Finish actions built from the model's own wake-up instants): all its requests
+   happen at the earliest possible instants, so the implementation's k-th start of a hook must
+   not be seen EARLIER than the model's k-th start (C18_grants_monotone); later is fine.
+   Cases that are not exact (ticks pile up behind sleepers and are combined when the sleeper
+   wakes up - how many executions that makes depends on the timing) are judged by P only. *)
+Definition sim := (lstate * list (Z * action))%type.
+Definition sim_step (cfg : config) (s : sim) (ta : Z * action) : sim :=
+  (step_lim cfg (fst s) ta, snd s ++ [ta]).
+
+Definition running_queues (ls : lstate) : list N := map q_name (filter is_running (queues (l_op ls))).
+
+(* hooks that end at once: every open execution ends (successfully) at instant t *)
+Fixpoint finish_all (fuel : nat) (cfg : config) (t : Z) (s : sim) : sim :=
+  match fuel with
+  | O => s
+  | S fuel' =>
+      match running_queues (fst s) with
+      | [] => s
+      | q :: _ => finish_all fuel' cfg t (sim_step cfg s (t, Finish q true))
+      end
+  end.
+
+Definition sim_fuel (cfg : config) (s : sim) : nat := wake_fuel cfg (fst s).
+
+(* time passes up to [limit]: the sleepers wake up one instant after the other *)
+Fixpoint drain_until (fuel : nat) (cfg : config) (limit : Z) (s : sim) : sim :=
+  match fuel with
+  | O => s
+  | S fuel' =>
+      match earliest_due limit (l_waiting (fst s)) with
+      | Some (_, u) =>
+          let s1 := sim_step cfg s (u, Idle) in
+          drain_until fuel' cfg limit (finish_all (sim_fuel cfg s1) cfg u s1)
+      | None => s
+      end
+  end.
+
+Definition sim_act (cfg : config) (s : sim) (ta : Z * action) : sim :=
+  let s0 := drain_until (sim_fuel cfg s) cfg (fst ta) s in
+  let s1 := sim_step cfg s0 ta in
+  finish_all (sim_fuel cfg s1) cfg (fst ta) s1.
+
+Definition auto_run (cfg : config) (hs : hook_settings) (script : list (Z * action)) : sim :=
+  fold_left (sim_act cfg) script (init_lim hs, []).
+
+(* everything [auto_run] does is a run of the model on the script it hands back *)
+Lemma sim_step_ok cfg ls0 s ta : fst s = run_lim cfg ls0 (snd s) ->
+  fst (sim_step cfg s ta) = run_lim cfg ls0 (snd (sim_step cfg s ta)).
+Proof. intros H. unfold sim_step, run_lim in *. cbn [fst snd]. rewrite fold_left_app, <- H. reflexivity. Qed.
+
+Lemma finish_all_ok cfg ls0 t : forall fuel s, fst s = run_lim cfg ls0 (snd s) ->
+  fst (finish_all fuel cfg t s) = run_lim cfg ls0 (snd (finish_all fuel cfg t s)).
+Proof.
+  induction fuel as [|fuel IH]; intros s H; [exact H|].
+  cbn [finish_all]. destruct (running_queues (fst s)) as [|q r]; [exact H|].
+  apply IH. apply sim_step_ok. exact H.
+Qed.
+
+Lemma drain_until_ok cfg ls0 limit : forall fuel s, fst s = run_lim cfg ls0 (snd s) ->
+  fst (drain_until fuel cfg limit s) = run_lim cfg ls0 (snd (drain_until fuel cfg limit s)).
+Proof.
+  induction fuel as [|fuel IH]; intros s H; [exact H|].
+  cbn [drain_until]. destruct (earliest_due limit (l_waiting (fst s))) as [[e u]|]; [|exact H].
+  apply IH. apply finish_all_ok. apply sim_step_ok. exact H.
+Qed.
+
+Lemma auto_run_is_run cfg hs : forall script,
+  fst (auto_run cfg hs script) = run_lim cfg (init_lim hs) (snd (auto_run cfg hs script)).
+Proof.
+  intros script. unfold auto_run.
+  assert (G : forall script s, fst s = run_lim cfg (init_lim hs) (snd s) ->
+              fst (fold_left (sim_act cfg) script s)
+              = run_lim cfg (init_lim hs) (snd (fold_left (sim_act cfg) script s))).
+  { clear script. induction script as [|ta r IH]; intros s H; [exact H|].
+    cbn [fold_left]. apply IH. unfold sim_act.
+    apply finish_all_ok. apply sim_step_ok. apply drain_until_ok. exact H. }
+  apply G. reflexivity.
+Qed.
+
+(* hence, when the script it built is in time order, the model's starts satisfy the
+   predicate that is used on the implementation's observations *)
+Lemma auto_run_P_timed cfg hs script anchors :
+  sortedb (map fst (snd (auto_run cfg hs script))) = true ->
+  P_timed hs anchors (starts_all (l_log (fst (auto_run cfg hs script)))) = true.
+Proof. intros Hs. rewrite auto_run_is_run. exact (op_P_timed_holds cfg hs _ anchors Hs). Qed.
+
+Record tcase := mkTCase {
+  tc_cfg : config;
+  tc_settings : hook_settings;
+  tc_boot : Z;
+  tc_ticks : list (Z * N);         (* instant, crontab *)
+  tc_end : Z;
+  tc_starts : list (N * Z);        (* implementation: (hook, instant at which the start was seen), in order *)
+  tc_anchors : list Z;
+  tc_exact : bool;
+  tc_bad : bool                    (* the harness saw something impossible in any model, or the
+                                      queues never became empty *)
+}.
+
+Definition t_script (c : tcase) : list (Z * action) :=
+  (tc_boot c, Boot) :: map (fun p => (fst p, Tick (snd p))) (tc_ticks c) ++ [(tc_end c, Idle)].
+Definition t_sim (c : tcase) : sim := auto_run (tc_cfg c) (tc_settings c) (t_script c).
+Definition t_model_starts (c : tcase) : list (N * Z) := starts_all (l_log (fst (t_sim c))).
+
+Definition drained (ls : lstate) : bool :=
+  forallb (fun q => match q_items q with [] => negb (is_running q) | _ => false end) (queues (l_op ls))
+  && match l_waiting ls with [] => true | _ => false end.
+
+Definition agrees_t (c : tcase) : bool :=
+  negb (tc_exact c) ||
+  (sortedb (map fst (t_script c))
+   && sortedb (map fst (snd (t_sim c)))
+   && drained (fst (t_sim c))
+   && forallb (fun h =>
+        let m := starts_of (h_id h) (t_model_starts c) in
+        let i := starts_of (h_id h) (tc_starts c) in
+        Nat.eqb (length m) (length i) && never_earlier m i) (tc_cfg c)).
+
+Definition P_case_t (c : tcase) : bool :=
+  negb (tc_bad c) && P_timed (tc_settings c) (tc_anchors c) (tc_starts c).
+
+(* ---- all kinds ---- *)
+Inductive case := CLim (c : lcase) | COp (c : opcase) | CTimed (c : tcase).
 
 Inductive mobs :=
 | MLim (o : obs)
-| MOp (steps : list (sobs * list N)) (starts : list (N * Z)) (throttled : list N) (overrun : bool).
+| MOp (steps : list (sobs * list N)) (starts : list (N * Z)) (throttled : list N) (overrun : bool)
+| MTimed (script : list (Z * action)) (starts : list (N * Z)) (drained : bool).
 
 Definition model_obs (c : case) : mobs :=
   match c with
   | CLim c => MLim (model_obs_l c)
   | COp c => MOp (op_model_steps c) (starts_all (l_log (op_final c))) (throttled_in (l_log (op_final c)))
                  (l_overrun (op_final c))
+  | CTimed c => MTimed (snd (t_sim c)) (t_model_starts c) (drained (fst (t_sim c)))
   end.
 
-Definition agrees (c : case) : bool := match c with CLim c => agrees_l c | COp c => agrees_op c end.
-Definition P_case (c : case) : bool := match c with CLim c => P_case_l c | COp c => P_case_op c end.
+Definition agrees (c : case) : bool :=
+  match c with CLim c => agrees_l c | COp c => agrees_op c | CTimed c => agrees_t c end.
+Definition P_case (c : case) : bool :=
+  match c with CLim c => P_case_l c | COp c => P_case_op c | CTimed c => P_case_t c end.
 
 Definition mismatches (cs : list case) : list N := indices_where (fun c => negb (agrees c)) cs.
 Definition spec_violations (cs : list case) : list N := indices_where (fun c => negb (P_case c)) cs.
